@@ -145,7 +145,7 @@ theorem silent_pure_rule {cfg : Cfg} {tok : Tok} {test : Test} {fuel : Nat} {r :
   · exact silent_pure_paragraph h
 
 /-- the look-ahead returns the state it was given -/
-def TestPure (test : Test) : Prop := ∀ s b s', test s = .ok (b, s') → s' = s
+def TestPure (test : Test) : Prop := ∀ s r, test s = .ok r → r.2 = s
 
 theorem runChain_silent_pure {run : RuleId → BState → Bool → Res}
     (hrun : ∀ r s b s', run r s true = .ok (b, s') → s' = s) :
@@ -169,11 +169,173 @@ theorem runChain_silent_pure {run : RuleId → BState → Bool → Res}
 
 /-- `test_rules_at_line` of the shipped rules changes nothing (not even `state.line`) -/
 theorem testRules_pure (cfg : Cfg) (fuel : Nat) : TestPure (testRules cfg fuel) := by
-  intro s b s' h
+  intro s ⟨b, s'⟩ h
   cases fuel with
   | zero => simp [testRules, engine] at h
   | succ f =>
     simp only [testRules, engine] at h
     exact runChain_silent_pure (fun r s b s' h => silent_pure_rule h) _ _ _ _ h
+
+/-! ## 3. silent `true` ⇒ real mode does not answer `false`
+
+  (`code`, `paragraph`, `lheading`, `reference` never answer `true` in silent mode: `silent_false_*`.)
+  The real-mode run starts with the same checks on the same state; the list rule has two more checks
+  in silent mode (a list interrupting a paragraph must start with 1 and must not be empty), none
+  less. -/
+
+set_option linter.unusedSimpArgs false
+
+/-- rewrite the real-mode run `hr` with everything the silent run established -/
+syntax "replay " ident : tactic
+macro_rules
+| `(tactic| replay $hr:ident) => `(tactic|
+    simp only [*, ok_bind, ↓reduceIte, not_true_eq_false, not_false_eq_true, Bool.false_eq_true,
+      decide_false, decide_true, false_and, and_false] at $hr:ident)
+
+theorem silent_implies_real_hr {s s1 s2 : BState} {b : Bool}
+    (hs : hrRule s true = .ok (true, s1)) (hr : hrRule s false = .ok (b, s2)) : b = true := by
+  unfold hrRule at hs hr
+  crack hs
+  replay hr
+  crack hr
+  all_goals simp_all
+
+theorem silent_implies_real_heading {s s1 s2 : BState} {b : Bool}
+    (hs : headingRule s true = .ok (true, s1)) (hr : headingRule s false = .ok (b, s2)) : b = true := by
+  unfold headingRule at hs hr
+  crack hs
+  replay hr
+  crack hr
+  all_goals simp_all
+
+theorem silent_implies_real_fence {s s1 s2 : BState} {b : Bool}
+    (hs : fenceRule s true = .ok (true, s1)) (hr : fenceRule s false = .ok (b, s2)) : b = true := by
+  unfold fenceRule at hs hr
+  crack hs
+  replay hr
+  crack hr
+  all_goals simp_all
+
+theorem silent_implies_real_blockquote {tok : Tok} {test : Test} {fuel : Nat} {s s1 s2 : BState}
+    {b : Bool} (hs : blockquoteRule tok test fuel s true = .ok (true, s1))
+    (hr : blockquoteRule tok test fuel s false = .ok (b, s2)) : b = true := by
+  unfold blockquoteRule at hs hr
+  crack hs
+  replay hr
+  crack hr
+  all_goals simp_all
+
+theorem silent_implies_real_list {tok : Tok} {test : Test} {fuel : Nat} {s s1 s2 : BState} {b : Bool}
+    (hs : listRule tok test fuel s true = .ok (true, s1))
+    (hr : listRule tok test fuel s false = .ok (b, s2)) : b = true := by
+  unfold listRule at hs hr
+  crack hs
+  all_goals (replay hr)
+  all_goals (crack hr)
+  all_goals (try simp only [emptyItemCheck, Bool.false_eq_true, ↓reduceIte, pure_ok, Except.ok.injEq] at *)
+  all_goals (subst_vars; first | rfl | contradiction)
+
+/-- the same for a rule as the chain runs it -/
+theorem silent_implies_real_rule {cfg : Cfg} {tok : Tok} {test : Test} {fuel : Nat} {r : RuleId}
+    {s s1 s2 : BState} {b : Bool} (hs : runRule cfg tok test fuel r s true = .ok (true, s1))
+    (hr : runRule cfg tok test fuel r s false = .ok (b, s2)) : b = true := by
+  cases r <;> simp only [runRule] at hs hr
+  · simp [silent_false_code] at hs
+  · exact silent_implies_real_fence hs hr
+  · exact silent_implies_real_blockquote hs hr
+  · exact silent_implies_real_hr hs hr
+  · exact silent_implies_real_list hs hr
+  · simp [silent_false_reference] at hs
+  · exact silent_implies_real_heading hs hr
+  · simp [silent_false_lheading] at hs
+  · simp [silent_false_paragraph] at hs
+
+/-! ## 4. a rule that answers `false` in real mode leaves the state alone -/
+
+theorem lazyScan_spec {test : Test} (ht : TestPure test) (setext : Bool) :
+    ∀ (fuel : Nat) (s : BState) (n : Nat) (r : Nat × Nat × BState),
+      lazyScan test setext fuel s n = .ok r →
+      r.2.2 = s ∧ n < r.1 ∧ (n < s.lineMax → r.1 ≤ s.lineMax) ∧ (r.2.1 ≠ 0 → r.1 < s.lineMax) := by
+  intro fuel
+  induction fuel with
+  | zero => intro s n r h; simp [lazyScan] at h
+  | succ f ih =>
+    intro s n r h
+    simp only [lazyScan] at h
+    crack h
+    · simp; omega
+    · have hc : ¬(_ ∨ _) := ‹_›
+      obtain ⟨h1, h2, h3, h4⟩ := ih _ _ _ h
+      simp only [not_or] at hc
+      exact ⟨h1, by omega, fun _ => h3 (by omega), h4⟩
+    · have hc : ¬(_ ∨ _) := ‹_›
+      simp only [not_or] at hc
+      simp; omega
+    · have hc : ¬(_ ∨ _) := ‹_›
+      obtain ⟨h1, h2, h3, h4⟩ := ih _ _ _ h
+      simp only [not_or] at hc
+      exact ⟨h1, by omega, fun _ => h3 (by omega), h4⟩
+    · have e := ht _ _ ‹test _ = _›
+      simp [e]; omega
+    · have hc : ¬(_ ∨ _) := ‹_›
+      have e := ht _ _ ‹test _ = _›
+      simp only [e] at h
+      obtain ⟨h1, h2, h3, h4⟩ := ih _ _ _ h
+      simp only [not_or] at hc
+      exact ⟨h1, by omega, fun _ => h3 (by simp; omega), h4⟩
+
+theorem real_false_same_hr {s s' : BState} (h : hrRule s false = .ok (false, s')) : s' = s := by
+  unfold hrRule at h
+  crack h
+  all_goals simp_all
+
+theorem real_false_same_heading {s s' : BState} (h : headingRule s false = .ok (false, s')) : s' = s := by
+  unfold headingRule at h
+  crack h
+  all_goals simp_all
+
+theorem real_false_same_code {s s' : BState} (h : codeRule s false = .ok (false, s')) : s' = s := by
+  unfold codeRule at h
+  crack h
+  all_goals simp_all
+
+theorem real_false_same_fence {s s' : BState} (h : fenceRule s false = .ok (false, s')) : s' = s := by
+  unfold fenceRule at h
+  crack h
+  all_goals simp_all
+
+theorem real_false_same_blockquote {tok : Tok} {test : Test} {fuel : Nat} {s s' : BState}
+    (h : blockquoteRule tok test fuel s false = .ok (false, s')) : s' = s := by
+  unfold blockquoteRule at h
+  crack h
+  all_goals simp_all
+
+theorem real_false_same_list {tok : Tok} {test : Test} {fuel : Nat} {s s' : BState}
+    (h : listRule tok test fuel s false = .ok (false, s')) : s' = s := by
+  unfold listRule at h
+  crack h
+  all_goals (subst_vars; first | rfl | contradiction)
+
+/-- the paragraph rule never answers `false` in real mode -/
+theorem real_true_paragraph {test : Test} {fuel : Nat} {s s' : BState} {b : Bool}
+    (h : paragraphRule test fuel s false = .ok (b, s')) : b = true := by
+  unfold paragraphRule at h
+  crack h
+  exact Eq.symm ‹true = b›
+
+theorem real_false_same_lheading {test : Test} (ht : TestPure test) {fuel : Nat} {s s' : BState}
+    (h : lheadingRule test fuel s false = .ok (false, s')) : s' = s := by
+  unfold lheadingRule at h
+  crack h
+  · simp_all
+  · have := (lazyScan_spec ht true _ _ _ _ ‹lazyScan _ _ _ _ _ = _›).1
+    simp_all
+
+theorem real_false_same_reference {cfg : Cfg} {test : Test} (ht : TestPure test) {fuel : Nat}
+    {s s' : BState} (h : referenceRule cfg test fuel s false = .ok (false, s')) : s' = s := by
+  unfold referenceRule at h
+  crack h
+  all_goals (try (have := (lazyScan_spec ht false _ _ _ _ ‹lazyScan _ _ _ _ _ = _›).1))
+  all_goals simp_all
 
 end MdIt.Block
